@@ -304,6 +304,22 @@ def _esc_sites(ctx, fn, allow) -> int:
             ctx.check(bad is None, "C04.ESC", key, fn.loc(c),
                       "enclosed by `except Exception` whose handler body cannot raise",
                       f"the catch-all handler can itself raise at `{src(bad)[:60] if bad is not None else ''}`")
+    # looking a method up on the store is a use of the store too: a store that resolves its methods lazily (a remote proxy)
+    # fails in __getattr__ with whatever the transport raises
+    if fn.qual == APPLY:
+        stores = {x.targets[0].id for x in walk_no_defs(fn.node) if isinstance(x, ast.Assign) and len(x.targets) == 1 and isinstance(x.targets[0], ast.Name) and isinstance(x.value, ast.Call)
+                  and x.value.args and any(const_str(a) == "store" for a in x.value.args[1:2])}
+        looks = [x for x in walk_no_defs(fn.node)
+                 if (isinstance(x, ast.Call) and dotted(x.func) in ("getattr", "hasattr") and x.args and isinstance(x.args[0], ast.Name) and x.args[0].id in stores)
+                 or (isinstance(x, ast.Attribute) and isinstance(x.value, ast.Name) and x.value.id in stores)]
+        if not stores:
+            raise AnalysisError("anchor-vanished: the local that holds the store in apply_changes")
+        for i, x in enumerate(looks, 1):
+            n_sites += 1
+            t = guarded_by_catch_all(ctx.prog, fn, x)
+            ctx.check(t is not None, "C04.ESC", ctx.okey(f"{APPLY}/store-lookup-guarded"), fn.loc(x), f"`{src(x)[:50]}` is enclosed by a handler catching Exception",
+                      f"`{src(x)[:50]}` looks a method up on the store outside any handler: a store that resolves its methods lazily (a remote proxy whose __getattr__ connects) raises right here - "
+                      "the turn aborts and the version bump is skipped")
     return n_sites
 
 
@@ -608,6 +624,38 @@ def _config_holders(fn: Func, ctxp: str) -> Set[str]:
     return out
 
 
+def holder_shape_gaps(fn: Func, ctxp: str) -> List[Tuple[ast.AST, str]]:
+    """(node, section) for every section of the configuration that fn takes from the holder by ATTRIBUTE only (getattr(H, "t4") /
+    H.t4 with H = getattr(ctx, "cfg" / "config") or a local bound to it) while never looking the same section up as a mapping
+    key (H.get("t4") / H["t4"]).  configs.validate returns a plain dict and run_turn's accessor accepts one: a reader that
+    knows only the attribute shape silently falls back to its built-in defaults for such a ctx."""
+    holders: Set[str] = set()
+
+    def is_holder(e: ast.AST) -> bool:
+        if isinstance(e, ast.Name) and e.id in holders:
+            return True
+        if isinstance(e, ast.Attribute) and isinstance(e.value, ast.Name) and e.value.id == ctxp and e.attr in ("cfg", "config"):
+            return True
+        return isinstance(e, ast.Call) and dotted(e.func) == "getattr" and len(e.args) >= 2 and isinstance(e.args[0], ast.Name) and e.args[0].id == ctxp \
+            and (const_str(e.args[1]) in ("cfg", "config") or isinstance(e.args[1], ast.Name))
+
+    for _ in range(2):
+        for x in walk_no_defs(fn.node):
+            if isinstance(x, ast.Assign) and len(x.targets) == 1 and isinstance(x.targets[0], ast.Name) and is_holder(x.value):
+                holders.add(x.targets[0].id)
+    by_attr, by_key = {}, set()
+    for x in walk_no_defs(fn.node):
+        if isinstance(x, ast.Call) and dotted(x.func) == "getattr" and len(x.args) >= 2 and is_holder(x.args[0]) and const_str(x.args[1]):
+            by_attr.setdefault(const_str(x.args[1]), x)
+        elif isinstance(x, ast.Attribute) and is_holder(x.value) and x.attr not in ("get", "items", "keys", "__dict__"):
+            by_attr.setdefault(x.attr, x)
+        elif isinstance(x, ast.Call) and isinstance(x.func, ast.Attribute) and x.func.attr == "get" and is_holder(x.func.value) and x.args and const_str(x.args[0]):
+            by_key.add(const_str(x.args[0]))
+        elif isinstance(x, ast.Subscript) and is_holder(x.value) and const_str(x.slice):
+            by_key.add(const_str(x.slice))
+    return [(n, sec) for sec, n in sorted(by_attr.items()) if sec not in by_key]
+
+
 def rule_config_holders(ctx) -> None:
     """"the configured cadence / cache busting": one turn has one configuration.  run_turn reads it (kill switch, every stage
     gate) from ctx.cfg or ctx.config, the snapshot writer from both; the apply stage must look in the same places - a ctx that
@@ -632,6 +680,10 @@ def rule_config_holders(ctx) -> None:
                           "on-apply cache invalidation")
         if not (want - got):
             ctx.holds("C04.CAD", f"{fn.qual}/config-holders", fn.loc(), f"{fn.name} reads the configuration from ctx.cfg and ctx.config like run_turn")
+        gaps = holder_shape_gaps(fn, fn.params[0])
+        ctx.check(not gaps, "C04.CAD", f"{fn.qual}/config-holder-shape", fn.loc(gaps[0][0] if gaps else None), f"{fn.name} takes its section from an object-shaped and from a dict-shaped holder alike",
+                  (f"{fn.name} takes `{gaps[0][1]}` from the config holder by attribute only (`{src(gaps[0][0])[:50]}`): a ctx whose config is the plain dict configs.validate returns (run_turn's accessor "
+                   "accepts it) commits with apply's built-in defaults - a snapshot on every turn, no cache busting, weights clamped to [-1, 1] whatever is configured") if gaps else "")
     ctx.floor("C04.CAD", "configuration accessors of the apply / snapshot stage", n, 3)
 
 
